@@ -37,6 +37,7 @@ type Op struct {
 	Scenario string `json:"scenario,omitempty"` // html, css(file of that scenario)
 	File     string `json:"file,omitempty"`     // css: file name inside the scenario dir
 	Text     string `json:"text,omitempty"`     // css: inline stylesheet text (instead of File); entry: the text to parse
+	TextB64  string `json:"text_b64,omitempty"` // entry: base64 of the text when it is not valid UTF-8
 	Kind     string `json:"kind,omitempty"`     // entry: which parser entry point (selector | stylesheet | declarations | tokens | svg | dataurl | color | nth | style_attr)
 	Engine   string `json:"engine,omitempty"`   // fontconfig: pango | gotext
 	Input    string `json:"input,omitempty"`    // html: url (default) | reader | string
